@@ -13,7 +13,7 @@ From Soy Require Import Proofs.MsgIdProofs.
 From Soy Require Import Model.Bytes Model.Outcome Model.Num Model.Values Model.Ast Model.MsgId
   Model.Escape Model.Interp Model.MsgParts Spec.MsgCat Proofs.MsgPartsProofs Proofs.InterpRelProofs Proofs.InterpPosProofs Proofs.MsgCatProofs
   Proofs.MsgPluralProofs Model.PoFile Proofs.PoFileProofs Model.JsGen Proofs.MsgJsProofs
-  Model.PoEntry Proofs.PoEntryProofs Model.PoBundle Proofs.PoBundleProofs Model.MiniJS Proofs.InterpGuard Proofs.MiniJSProofs Proofs.MiniJSPrint Proofs.MiniJSCtl Proofs.MiniJSGo Proofs.MiniJSStmt Proofs.MiniJSGen Proofs.MiniJSSim Proofs.MsgWalkEq Proofs.MsgThreeSided.
+  Model.PoEntry Proofs.PoEntryProofs Model.PoBundle Proofs.PoBundleProofs Model.PoHeader Proofs.PoHeaderProofs Model.MiniJS Proofs.InterpGuard Proofs.MiniJSProofs Proofs.MiniJSPrint Proofs.MiniJSCtl Proofs.MiniJSGo Proofs.MiniJSStmt Proofs.MiniJSGen Proofs.MiniJSSim Proofs.MsgWalkEq Proofs.MsgThreeSided.
 Open Scope N_scope.
 
 (* ------------------------------------------------------------------ *)
@@ -572,6 +572,108 @@ Print Assumptions C11_po_load_extracted_file.
 Theorem C11_po_parse_uint_dec : forall id, id < 18446744073709551616 -> pb_parse_uint (dec_of_N id) = Some id.
 Proof. exact parse_uint_dec. Qed.
 Print Assumptions C11_po_parse_uint_dec.
+
+(* (9) THE HEADER ENTRY AND THE PLURAL RULE (Model/PoHeader.v: net/textproto's ReadMIMEHeader, the tail of po.Parse,
+   po/plural.go, the head of pomsg.newBundle -- hand model of library code, tied on every run by c11_po_hparse /
+   c11_po_hload / c11_po_hmime / c11_po_hwrite).
+
+   textproto.ReadMIMEHeader on the msgstr File.WriteTo builds for a header -- "key: value\n" per key, for canonical
+   keys (RFC 7230 token bytes, first letter and letters after '-' upper case, the rest lower case) and values of valid
+   header bytes without a blank at either end -- gives the keys and values back, in order *)
+Theorem C11_po_read_mime_header : forall h, poh_hdr_ok h -> poh_read_mime_header (poh_header_text h) = Ok h.
+Proof. exact read_mime_header_text. Qed.
+Print Assumptions C11_po_read_mime_header.
+
+(* the loop of po.Parse on the bytes File.WriteTo writes for such a header and the extractor's entries (any
+   descriptions, any msgstr): the header entry comes back first, as a message with an empty msgid and the header text
+   as its one msgstr, then every entry *)
+Theorem C11_po_parse_header_file : forall is_print h (es : list xentry), h <> [] -> poh_hdr_ok h -> Forall xentry_ok es ->
+  pe_parse (poh_write_file is_print h (map xentry_msg es)) = Ok (poh_header_msg h :: map xentry_read es).
+Proof. exact parse_header_file. Qed.
+Print Assumptions C11_po_parse_header_file.
+
+(* THE WHOLE CATALOGUE, HEADER INCLUDED -> pomsg's bundle AND ITS PLURAL RULE.  po.Parse (its loop, ReadMIMEHeader on
+   the header entry, which is taken out of the messages, the Plural-Forms / Language lookup) followed by
+   pomsg.newBundle under ANY locale name: the outcome is decided by the header alone ([poh_pluralize h]: the selector
+   its Plural-Forms names -- an unknown value is an error --, else the rule of its Language), then by the locale's name
+   ([poh_choose]), and the bundle is [new_bundle] on the (id, plural variable, msgstr) triples of the entries -- the
+   abstract catalogue of the rendering theorems; the second component is the index of the selector that
+   Bundle.PluralCase applies ([poh_select]; [poh_plural_index c] is the [plural_index] of those theorems) *)
+Theorem C11_po_load_header_file : forall is_print (h : poh_header) (es : list xentry) (locale : bstr),
+  h <> [] -> poh_hdr_ok h -> Forall xentry_ok es -> Forall xentry_id64 es ->
+  poh_load locale (poh_write_file is_print h (map xentry_msg es))
+  = (sel <- poh_pluralize h ;;
+     match poh_choose sel locale with
+     | None => Err poh_e_forms
+     | Some c => bd <- new_bundle (map xentry_po es) ;; Ok (bd, c)
+     end).
+Proof. exact load_header_file. Qed.
+Print Assumptions C11_po_load_header_file.
+
+(* the header decides: a Plural-Forms value the library knows (spaces do not matter) gives that rule under every
+   locale name, an unknown one refuses the catalogue under every locale name *)
+Theorem C11_po_header_decides : forall is_print h es locale c,
+  h <> [] -> poh_hdr_ok h -> Forall xentry_ok es -> Forall xentry_id64 es ->
+  poh_lookup_selector (poh_get poh_k_plural_forms h) = Some c ->
+  poh_load locale (poh_write_file is_print h (map xentry_msg es)) = (bd <- new_bundle (map xentry_po es) ;; Ok (bd, c)).
+Proof. exact load_header_plural_forms. Qed.
+Print Assumptions C11_po_header_decides.
+
+Theorem C11_po_header_unknown_forms : forall is_print h es locale,
+  h <> [] -> poh_hdr_ok h -> Forall xentry_ok es -> Forall xentry_id64 es ->
+  poh_get poh_k_plural_forms h <> [] -> poh_lookup_selector (poh_get poh_k_plural_forms h) = None ->
+  poh_load locale (poh_write_file is_print h (map xentry_msg es)) = Err poh_e_selector.
+Proof. exact load_header_unknown_forms. Qed.
+Print Assumptions C11_po_header_unknown_forms.
+
+(* no Plural-Forms: the rule of the header's Language, else of the locale's name, else "Plural-Forms must be specified" *)
+Theorem C11_po_header_no_forms : forall is_print h es locale,
+  h <> [] -> poh_hdr_ok h -> Forall xentry_ok es -> Forall xentry_id64 es ->
+  poh_get poh_k_plural_forms h = [] ->
+  poh_load locale (poh_write_file is_print h (map xentry_msg es))
+  = match poh_choose (poh_selector_for_language (poh_get poh_k_language h)) locale with
+    | None => Err poh_e_forms
+    | Some c => bd <- new_bundle (map xentry_po es) ;; Ok (bd, c)
+    end.
+Proof. exact load_header_no_forms. Qed.
+Print Assumptions C11_po_header_no_forms.
+
+(* a catalogue without header entry (the first entry has a msgid): the rule of the locale's name *)
+Theorem C11_po_load_no_header : forall is_print (es : list xentry) (locale : bstr),
+  Forall xentry_ok es -> Forall xentry_id64 es ->
+  match es with [] => True | (_, _, _, f) :: _ => pf_id f <> [] end ->
+  poh_load locale (pe_write_file is_print (map xentry_msg es))
+  = match poh_selector_for_language locale with
+    | None => Err poh_e_forms
+    | Some c => bd <- new_bundle (map xentry_po es) ;; Ok (bd, c)
+    end.
+Proof. exact load_no_header. Qed.
+Print Assumptions C11_po_load_no_header.
+
+(* every selector answers below the number of forms its Plural-Forms declares, for every Go int (negative ones too) *)
+Theorem C11_po_select_in_range : forall code n, (0 <= poh_select code n < poh_nplurals code)%Z.
+Proof. exact select_in_range. Qed.
+Print Assumptions C11_po_select_in_range.
+
+(* non-vacuity: a header as Poedit writes it (three keys, Russian rule), loaded under the name "en": the Russian
+   selector, index 7, which answers 0 1 2 for 21, 22, 25 and 2 for 11 *)
+Definition ex_header : poh_header :=
+  [(b "Content-Type", b "text/plain; charset=UTF-8"); (b "Language", b "ru");
+   (b "Plural-Forms", b "nplurals=3; plural=(n%10==1 && n%100!=11 ? 0 : n%10>=2 && n%10<=4 && (n%100<10 || n%100>=20) ? 1 : 2);")].
+Example ex_po_header :
+  ex_header <> [] /\ poh_hdr_ok ex_header
+  /\ poh_lookup_selector (poh_get poh_k_plural_forms ex_header) = Some 7
+  /\ map (poh_plural_index 7) [1; 21; 22; 25; 11; 111; 0; -1]%Z = [0; 0; 1; 2; 2; 2; 2; 2]%nat
+  /\ poh_load (b "en") (poh_write_file (fun _ => true) ex_header []) = Ok ([], 7)
+  /\ poh_load (b "xx") (poh_write_file (fun _ => true) [(b "Language", b "pt-BR")] []) = Ok ([], 2)
+  /\ poh_load (b "xx") (poh_write_file (fun _ => true) [(b "X-Generator", b "none")] []) = Err poh_e_forms
+  /\ poh_load (b "cs_CZ") (poh_write_file (fun _ => true) [(b "X-Generator", b "none")] []) = Ok ([], 8).
+Proof.
+  split; [discriminate|]. split.
+  { repeat constructor; vm_compute; try reflexivity; try discriminate;
+      repeat (constructor; [reflexivity|]); try constructor. }
+  repeat split; vm_compute; reflexivity.
+Qed.
 
 (* before the repair (the description written as ONE "#. " value): a description of two lines puts its second
    line inside the entry, and the message Parse reads has no reference and no msgid *)
